@@ -17,7 +17,7 @@ from ..interp import Event, Path
 from ..loader import AnalysisError, ClassInfo, FuncInfo, Program
 from ..model import Model
 from ..report import Run
-from ..values import (Const, Ext, Inst, ListV, StrV, Sym, Term, TupleV, V)
+from ..values import (Const, DictV, Ext, Inst, ListV, StrV, Sym, Term, TupleV, V)
 from ..visits import make_visitor
 
 try:
@@ -217,7 +217,7 @@ def check(run: Run, prog: Program, model: Model, tier: str) -> None:
     run.floor("NO-HIDDEN-STATE", 1)
 
 
-def _run_handler(prog: Program, model: Model, cls: ClassInfo, name: str, mk: Any) -> List[Path]:
+def _run_handler(prog: Program, model: Model, cls: ClassInfo, name: str, mk: Any, small_alphabet: Optional[str] = None) -> List[Path]:
     it = Interp(prog, model, unroll=1)
     f = cls.methods[name]
 
@@ -233,8 +233,16 @@ def _run_handler(prog: Program, model: Model, cls: ClassInfo, name: str, mk: Any
         g = make_visitor(i, "Generator")
         rg = g.attrs.get("_regex_generator")
         assert isinstance(rg, Inst)
+        if small_alphabet is not None:
+            # a two-letter `letters` alphabet keeps the per-letter case analysis small; the rule only asks what the
+            # candidate set DEPENDS on, not what it contains
+            al = rg.attrs.get("_alphabet")
+            if isinstance(al, DictV):
+                al2 = DictV(list(al.items))
+                al2.store(Const("letters"), Const(small_alphabet))
+                rg = Inst(rg.cls, dict(rg.attrs, _alphabet=al2), rg.origin)
         return i.call_function(f, [mk()], {}, self_val=rg)
-    return it.run_paths(run)
+    return it.run_paths(run, max_paths=600)
 
 
 UNKNOWN = "__NO_SUCH_CODE__"
@@ -425,6 +433,37 @@ def _children(run: Run, prog: Program, model: Model, cls: ClassInfo) -> None:
                 run.undecided("CHILDREN", c, site, "bounds of the expansion are not arithmetic over lo / hi")
             else:
                 run.holds("CHILDREN", c, site, f"range bounds cover [lo, hi] on {len(cands) ** 2 // 2} sampled placements against the {len(ords)}-letter alphabet", nontrivial=True)
+    # NEGATED CLASS with several members: the candidate alphabet depends on EVERY member (an early `return` in a
+    # per-member test makes the members after a range / category invisible)
+    if "_generate_not_in" in cls.methods:
+        site = cls.methods["_generate_not_in"].loc
+        lit = Sym("lit_c", "int", ("node", "lit"))
+        lo2, hi2 = Sym("rng_lo", "int", ("node", "lo")), Sym("rng_hi", "int", ("node", "hi"))
+        orders = [("range then literal", lambda: ListV([TupleV([_op(prog, cls, "RANGE"), TupleV([lo2, hi2])]),
+                                                        TupleV([_op(prog, cls, "LITERAL"), lit])]), ["rng_lo", "lit_c"]),
+                  ("literal then range", lambda: ListV([TupleV([_op(prog, cls, "LITERAL"), lit]),
+                                                        TupleV([_op(prog, cls, "RANGE"), TupleV([lo2, hi2])])]), ["lit_c", "rng_lo"])]
+        for label, mk, names in orders:
+            ps = _run_handler(prog, model, cls, "_generate_not_in", mk, small_alphabet="ab")
+            c = f"NOT_IN: every member of the class is consulted ({label})"
+            blind: List[str] = []
+            seen = 0
+            for p in ps:
+                for e in p.events:
+                    if e.kind == "call" and isinstance(e.data.get("callee"), str) and e.data["callee"].endswith("random_choice") and e.data.get("args"):
+                        seen += 1
+                        dep = e.data["args"][0].key() + " " + " ".join(k for k, _, _ in p.facts[:e.nfacts])
+                        for nm in names:
+                            if nm not in dep:
+                                blind.append(f"on a path the candidate letters {e.data['args'][0].key()[:40]} do not depend on `{nm}` "
+                                             f"(conditions: {', '.join(k[:40] for k, _, _ in p.facts[:e.nfacts][-2:]) or 'none'})")
+            if any(p.outcome == "limit" for p in ps) or not seen:
+                run.undecided("CHILDREN", c, site, "path limit / no draw reached")
+            elif blind:
+                run.violated("CHILDREN", c, site, "; ".join(sorted(set(blind)))[:300],
+                             witness="generate('[^0-9a-f]') can return 'c' / generate('[^a-z_]') can return '_'")
+            else:
+                run.holds("CHILDREN", c, site, f"the drawn alphabet depends on all members on {seen} draw paths", nontrivial=True)
     run.floor("CHILDREN", 4)
 
 
